@@ -67,6 +67,10 @@ def purity(ctx: Ctx) -> None:
             elif b.kind == "assign" and match("$t or $c.blank()", b.value) is not None:
                 ctx.bad("R-PURE", cv, f"{name} is a deep copy of the caller's template or a fresh blank()", f"{name} = {src(b.value)}: the caller's template object itself is written to "
                         "(and shared between results)", node=b.value)
+    for _ in range(3):  # aliases of a fresh object (x = fresh) are fresh too
+        for name, bs in loc.b.items():
+            if name not in fresh and len(bs) == 1 and bs[0].kind == "assign" and isinstance(bs[0].value, ast.Name) and bs[0].value.id in fresh:
+                fresh[name] = fresh[bs[0].value.id]
     ctx.floor("fresh result objects in _convert", len(fresh), 2)
     for name, v in fresh.items():
         m = match("deepcopy($t) or $c.blank()", v)
@@ -74,7 +78,8 @@ def purity(ctx: Ctx) -> None:
         okt = isinstance(t, ast.Name) and t.id in cv.param_names() and t.id.endswith("template") and loc.only_param(t.id)
         okc = isinstance(c, ast.Name) and c.id in cv.param_names() and c.id.endswith("type")
         single = len(loc.b.get(name, [])) == 1
-        ctx.expect("R-PURE", cv, f"{name} is a deep copy of the caller's template or a fresh blank()", okt and okc and single, src(v), f"{name} = {src(v)}", node=v)
+        ctx.expect("R-PURE", cv, f"{name} is a deep copy of the caller's template or a fresh blank()", okt and okc and single, src(v), f"{name} = {src(v)}", node=v) if not (
+            len(loc.b.get(name, [])) == 1 and isinstance(loc.b[name][0].value, ast.Name)) else None
     # template/type agreement: simfile template with simfile type, chart with chart
     for name, v in fresh.items():
         m = match("deepcopy($t) or $c.blank()", v)
@@ -88,6 +93,8 @@ def purity(ctx: Ctx) -> None:
     chart_fresh = [n for n, v in fresh.items() if "chart" in ast.unparse(match("deepcopy($t) or $c.blank()", v)["c"])]
     for n in chart_fresh:
         b = loc.b[n][0]
+        if isinstance(b.value, ast.Name):
+            continue  # an alias; the object itself is judged under its own name
         ctx.expect("R-PURE", cv, "a new output chart is created for every source chart", in_body(lp, b.node), "", f"{n} is created outside the chart loop: all charts would share one object", node=b.node)
     # calls of _copy_properties: source is the parameter / loop element, output a fresh object
     cps = [c for c in calls(cv) if callee(ctx, cv, c) is cp]
@@ -130,7 +137,7 @@ def purity(ctx: Ctx) -> None:
         if in_body(lp, c):
             ctx.expect("R-ORDER", cv, "a chart is appended after its properties were copied", cfg.dominates(cfg_node_of(cfg, cv, c), cfg_node_of(cfg, cv, ap)), "", "", node=ap)
     rets = [r for r in body_walk(cv.node) if isinstance(r, ast.Return)]
-    okr = len(rets) == 1 and any(isinstance(n, ast.Name) and n.id in fresh and "chart" not in n.id for n in ast.walk(rets[0].value))
+    okr = len(rets) == 1 and any(isinstance(n, ast.Name) and n.id in fresh and n.id not in chart_fresh for n in ast.walk(rets[0].value))
     ctx.expect("R-PURE", cv, "the result is the fresh simfile", okr, "", "", node=cv.node)
     # parameters are never mutated
     for f in (cv, cp, p.func(f"{CV}:_convert_warps"), p.func(f"{CV}:_should_copy_property")):
@@ -278,6 +285,14 @@ def warps_first(ctx: Ctx, direction: str = "both") -> None:
         fs = facts(ctx, cw, r)
         pos = [ast.unparse(a) for a, pol in fs if pol]
         if f"isinstance({sp}, SMSimfile)" in pos:
+            for a_, pol_ in facts(ctx, cw, r):
+                if not pol_:
+                    continue
+                mm = match("any(($x.value < 0 for $g in $lists for $x in $g))", a_)
+                if mm is not None and isinstance(mm["lists"], (ast.Tuple, ast.List)):
+                    srcs_ = sorted(ast.unparse(inline(e, cw)) for e in mm["lists"].elts)
+                    if srcs_ == sorted([f"BeatValues.from_str({sp}.bpms)", f"BeatValues.from_str({sp}.stops)"]):
+                        sm_ok = True
             neg = [a for a in pos if re.fullmatch(r"(\w+)\.value < 0", a)]
             # the loop covers both lists
             lists = None
@@ -285,7 +300,7 @@ def warps_first(ctx: Ctx, direction: str = "both") -> None:
                 if in_body(lp, r) and isinstance(lp.iter, (ast.Tuple, ast.List)):
                     lists = [inline(e, cw) for e in lp.iter.elts]
             srcs = sorted(ast.unparse(x) for x in lists) if lists else []
-            sm_ok = bool(neg) and srcs == sorted([f"BeatValues.from_str({sp}.bpms)", f"BeatValues.from_str({sp}.stops)"])
+            sm_ok = sm_ok or (bool(neg) and srcs == sorted([f"BeatValues.from_str({sp}.bpms)", f"BeatValues.from_str({sp}.stops)"]))
         if f"isinstance({sp}, SSCSimfile)" in pos:
             ssc_ok = any("warps" in a for a in pos)
     if direction in ("both", "sm_to_ssc"):
